@@ -82,8 +82,8 @@ pub fn gen_string(rng: &mut Rng, k: &Knobs, out: &mut Vec<char>, max_elems: usiz
             0..=4 => out.push(*rng.pick(&RAW)),
             5 => out.push((b'a' + rng.below(26) as u8) as char),
             6 | 7 => { out.push('\\'); out.push(*rng.pick(&SIMPLE_ESC)); }
-            8 => { let cp = *rng.pick(&[0x0000u32, 0x001f, 0x0022, 0x005c, 0x00e9, 0x20ac, 0xd7ff, 0xe000, 0xfffe, 0xffff]); hex4(rng, cp, out); }
-            9 => { let cp = rng.below(0xd800) as u32; hex4(rng, cp, out); }
+            8 => { let cp = *rng.pick(&[0x0000u32, 0x001f, 0x0020, 0x0022, 0x005c, 0x007f, 0x0080, 0x00e9, 0x07ff, 0x0800, 0x2028, 0x20ac, 0xd7ff, 0xe000, 0xfeff, 0xfffc, 0xfffd, 0xfffe, 0xffff]); hex4(rng, cp, out); }
+            9 => { let cp = if rng.chance(1, 4) { 0xe000 + rng.below(0x2000) as u32 } else { rng.below(0xd800) as u32 }; hex4(rng, cp, out); }
             10 => { // surrogate pair
                 let hi = 0xd800 + rng.below(0x400) as u32; let lo = 0xdc00 + rng.below(0x400) as u32;
                 hex4(rng, hi, out); hex4(rng, lo, out);
